@@ -476,8 +476,62 @@ func TestC01Standin(t *testing.T) {
 					r.Close()
 				}
 			}
+			// the input readers are still served while (and after) they are merged: they show what they showed
+			checkIndex(older, so, true)
+			checkIndex(newer, sn, true)
 			older.Close()
 			newer.Close()
+			// a newest file whose first IPv4 host group has one free slot and whose last stream brought two unknown
+			// hosts (they went into a second group), merged with an older file that brings unknown hosts: neither
+			// the merged file nor the input readers may show another address for any stream
+			mk4 := func(name string, ids uint64, pairs [][2][4]byte) (*Reader, []*c01Stream) {
+				w, err := NewWriter(tools.MakeFilename(tmp, "idx"))
+				if err != nil {
+					t.Fatal(err)
+				}
+				var ss []*c01Stream
+				for i, pr := range pairs {
+					s := &c01Stream{ID: ids + uint64(i), DataAt: map[int]int{0: 1}, Pcap: name, PcapBase: uint64(i), Dirs: []bool{true}, Start: t1}
+					s.Client = netip.AddrPortFrom(netip.AddrFrom4(pr[0]), 1234).String()
+					s.Server = netip.AddrPortFrom(netip.AddrFrom4(pr[1]), 80).String()
+					st := s.build(rng)
+					if ok, err := w.AddStream(&st, s.ID); err != nil || !ok {
+						t.Fatalf("AddStream: %v %v", ok, err)
+					}
+					ss = append(ss, s)
+				}
+				r, err := w.Finalize()
+				if err != nil {
+					t.Fatal(err)
+				}
+				return r, ss
+			}
+			var np [][2][4]byte
+			for i := 0; i < 8191; i++ {
+				np = append(np, [2][4]byte{{10, 0, byte(i >> 8), byte(i)}, {11, 0, byte(i >> 8), byte(i)}})
+			}
+			np = append(np, [2][4]byte{{10, 0, 0, 0}, {12, 0, 0, 0}}, [2][4]byte{{13, 0, 0, 1}, {13, 0, 0, 2}})
+			newer4, sn4 := mk4("newer4.pcap", 100000, np)
+			older4, so4 := mk4("older4.pcap", 50000, [][2][4]byte{{{99, 0, 0, 1}, {99, 0, 0, 2}}, {{99, 0, 0, 3}, {10, 0, 0, 5}}})
+			merged4, err := Merge(tmp, []*Reader{older4, newer4})
+			if err != nil {
+				fail("merge-error", "ipv4 host groups", err.Error())
+			} else {
+				for _, s := range append(so4, sn4...) {
+					for _, m := range merged4 {
+						if got, err := m.StreamByID(s.ID); err == nil && got != nil {
+							checkIndex(m, []*c01Stream{s}, true)
+						}
+					}
+				}
+				for _, r := range merged4 {
+					r.Close()
+				}
+			}
+			checkIndex(older4, so4, true)
+			checkIndex(newer4, sn4, true)
+			older4.Close()
+			newer4.Close()
 		}
 		rounds = 0
 	}
